@@ -262,35 +262,62 @@ theorem ofDay_fresh_add (date : Date) (i : Nat) (op : Op) :
   apply SDay.ext' <;> cases op <;>
     simp [Day.add, ofDay, SDay.absorb, Day.B, Day.S, factor_eq, splitFactor, Spec.factor, rsum] <;> (try grind)
 
+theorem Day.add_offset (d : Day) (i : Nat) (op : Op) : (d.add i op).offset = d.offset := by
+  cases op <;> simp only [Day.add] <;> (try split) <;> rfl
+
+/-- the days `groupDays` builds carry no cost offset yet (the pre-pass writes them later) -/
+theorem groupDays_offset : ∀ (xs : List (Nat × Tx)) (d : Day), d ∈ groupDays xs → d.offset = 0 := by
+  intro xs
+  induction xs with
+  | nil => intro d hd; simp [groupDays] at hd
+  | cons x xs ih =>
+    intro d hd
+    obtain ⟨i, t⟩ := x
+    have hnew : (({ date := t.date } : Day).add i t.op).offset = 0 := by rw [Day.add_offset]
+    simp only [groupDays] at hd
+    split at hd
+    · simp only [List.mem_singleton] at hd; subst hd; exact hnew
+    · rename_i d0 ds hg
+      split at hd
+      · simp only [List.mem_cons] at hd
+        rcases hd with rfl | hd
+        · rfl
+        · exact ih d (by rw [hg]; simp [hd])
+      · simp only [List.mem_cons] at hd
+        rcases hd with rfl | rfl | hd
+        · exact hnew
+        · exact ih d (by rw [hg]; simp)
+        · exact ih d (by rw [hg]; simp [hd])
+
 /-- a line put in front of a day already grouped: the same as absorbing it into that day -/
 theorem ofDay_merge_fresh (d : Day) (date : Date) (i : Nat) (op : Op) (hdate : date = d.date)
-    (hpos : ∀ b, d.buy = some b → 0 < b.q) (hop : opOk op) :
+    (hpos : ∀ b, d.buy = some b → 0 < b.q) (hop : opOk op) (h0 : d.offset = 0) :
     ofDay ((({ date := date } : Day).add i op).merge d) = (ofDay d).absorb op := by
   subst hdate
   cases op with
   | buy q p f =>
     cases hb : d.buy with
     | none =>
-      apply SDay.ext' <;> simp [Day.add, Day.merge, ofDay, SDay.absorb, Day.B, Day.S, hb] <;> grind
+      apply SDay.ext' <;> simp [Day.add, Day.merge, ofDay, SDay.absorb, Day.B, Day.S, hb, h0] <;> grind
     | some y =>
       have hy := hpos y hb
       have hq : 0 < q := hop.1
       have hne : q + y.q ≠ 0 := by grind
       have hmul : (q + y.q) * ((q * p + y.q * y.p) / (q + y.q)) = q * p + y.q * y.p := by grind
-      apply SDay.ext' <;> simp [Day.add, Day.merge, ofDay, SDay.absorb, Day.B, Day.S, hb, mergeTrade, hne]
+      apply SDay.ext' <;> simp [Day.add, Day.merge, ofDay, SDay.absorb, Day.B, Day.S, hb, h0, mergeTrade, hne]
       all_goals (first | grind | (rw [hmul]; grind))
   | sell q p f =>
-    apply SDay.ext' <;> simp [Day.add, Day.merge, ofDay, SDay.absorb, Day.B, Day.S] <;> (try (cases d.buy <;> simp)) <;> grind
+    apply SDay.ext' <;> simp [Day.add, Day.merge, ofDay, SDay.absorb, Day.B, Day.S, h0] <;> (try (cases d.buy <;> simp)) <;> grind
   | split r =>
-    apply SDay.ext' <;> simp [Day.add, Day.merge, ofDay, SDay.absorb, Day.B, Day.S, factor_eq, splitFactor] <;> (try (cases d.buy <;> simp)) <;> grind
+    apply SDay.ext' <;> simp [Day.add, Day.merge, ofDay, SDay.absorb, Day.B, Day.S, factor_eq, splitFactor, h0] <;> (try (cases d.buy <;> simp)) <;> grind
   | unsplit r =>
-    apply SDay.ext' <;> simp [Day.add, Day.merge, ofDay, SDay.absorb, Day.B, Day.S, factor_eq, splitFactor] <;> (try (cases d.buy <;> simp)) <;> grind
+    apply SDay.ext' <;> simp [Day.add, Day.merge, ofDay, SDay.absorb, Day.B, Day.S, factor_eq, splitFactor, h0] <;> (try (cases d.buy <;> simp)) <;> grind
   | dividend v x =>
-    apply SDay.ext' <;> simp [Day.add, Day.merge, ofDay, SDay.absorb, Day.B, Day.S, Spec.factor] <;> (try (cases d.buy <;> simp)) <;> grind
+    apply SDay.ext' <;> simp [Day.add, Day.merge, ofDay, SDay.absorb, Day.B, Day.S, Spec.factor, h0] <;> (try (cases d.buy <;> simp)) <;> grind
   | accumulation q v x =>
-    apply SDay.ext' <;> simp [Day.add, Day.merge, ofDay, SDay.absorb, Day.B, Day.S, Spec.factor] <;> (try (cases d.buy <;> simp)) <;> grind
+    apply SDay.ext' <;> simp [Day.add, Day.merge, ofDay, SDay.absorb, Day.B, Day.S, Spec.factor, h0] <;> (try (cases d.buy <;> simp)) <;> grind
   | capreturn q v f =>
-    apply SDay.ext' <;> simp [Day.add, Day.merge, ofDay, SDay.absorb, Day.B, Day.S, Spec.factor] <;> (try (cases d.buy <;> simp)) <;> grind
+    apply SDay.ext' <;> simp [Day.add, Day.merge, ofDay, SDay.absorb, Day.B, Day.S, Spec.factor, h0] <;> (try (cases d.buy <;> simp)) <;> grind
 
 
 theorem Day.merge_date (a b : Day) : (a.merge b).date = a.date := rfl
@@ -352,7 +379,7 @@ theorem foldr_insert_groupDays : ∀ (xs : List (Nat × Tx)),
         simp only [h1, h2, heq, if_true, if_false, List.map_cons]
         congr 1
         have hdd : t.date = d.date := ord_inj t.date d.date htok hdok (by unfold Day.ord at h2; exact h2)
-        rw [ofDay_merge_fresh d t.date i t.op hdd hpos.2.2 (hok (i, t) (by simp))]
+        rw [ofDay_merge_fresh d t.date i t.op hdd hpos.2.2 (hok (i, t) (by simp)) (groupDays_offset xs d hdmem)]
         simp [Int.lt_irrefl]
       · have h1 : t.date.ord < d.ord := by unfold Tx.ord at hle heq; omega
         simp only [h1, heq, if_true, if_false, List.map_cons]
